@@ -263,10 +263,10 @@ def handleStream (cmd : String) (args : List String) : Option String :=
       let init ← hex? init
       memwHist init (if ops = "-" then [] else ops.splitOn ",")
   | "wr.dyn", [ops] => dynwHist (if ops = "-" then [] else ops.splitOn ",")
-  | "wr.prefixed", [w, n] => do
-      -- Write<uintW>(std::string(n, 'x')) into a growing writer
-      let w ← nat? w; let n ← nat? n
-      pure (match writePrefixed w (List.replicate n 120) n with
+  | "wr.prefixed", [w, n, sg] => do
+      -- Write<(u)intW>(std::string(n, 'x')) into a growing writer
+      let w ← nat? w; let n ← nat? n; let sg ← nat? sg
+      pure (match writePrefixed w (sg != 0) (List.replicate n 120) n with
         | .ok b => showBytes b
         | .error _ => "err:0")
   | "fw.open", [flags, ex, b] => do
